@@ -467,8 +467,8 @@ def boundary_layout(genes: Sequence[Any], ring: int, cutoff: int) -> bool:
 
 FAMILIES = {
     # family: (layout function, genes, caps per rule class (single, binary, ternary) quick / thorough)
-    "w2": (layouts2, 2, (256, 12, 4), (4096, 256, 24)),
-    "w3": (layouts3, 3, (48, 6, 3), (2048, 96, 12)),
+    "w2": (layouts2, 2, (256, 12, 4), (4096, 256, 16)),
+    "w3": (layouts3, 3, (48, 6, 3), (2048, 96, 8)),
     "w4": (layouts4, 4, (0, 0, 0), (512, 32, 8)),
     "sp": (layouts_special, 2, (64, 8, 8), (512, 64, 64)),
 }
